@@ -418,5 +418,5 @@ TECHNIQUE = "join/split inverse checked with the library and an independent toke
 LEVEL_TEXT = ("Sentence 1: every alphabet string up to the bound is joined and split as text/uri/cal-address/inline value (plus typed values and parameter maps) and "
               "must come back as the same name, parameters and a value text decoding to the value, also under an independent tokenizer. Sentence 2: every "
               "payload of a hostile list is placed in 14 positions of a real calendar; the only admissible outcomes are refusal, rejection, or exactly the "
-              "intended structure. Complete for the alphabet bound and the payload list, sampled for random token soup.")
+              "intended structure. Complete for the alphabet bound and the payload list, sampled for random token soup. The line an Event writes after add(name, value, parameters=) is read with the same tokenizer.")
 LEVEL_NOTE = "trusts vmon/refs/contentline.py, text.py, fold.py; refusals are AssertionErrors today and disappear under python -O (not explored)"
